@@ -339,14 +339,15 @@ class AnsiString:
         start = self._slice_val_to_idx(start, 0)
         end = self._slice_val_to_idx(end, len(self._s))
 
-        if (not settings and not isinstance(settings, int)) or start >= len(self._s) or end <= start:
+        if not settings and not isinstance(settings, int):
             # Ignore - nothing to apply (the integer 0 is a setting, not an empty list)
             return
 
+        # (the settings are checked even when there is nothing to format: a bad setting is always an error)
         ansi_settings = _AnsiSettingPoint._scrub_ansi_settings(settings, make_unique=True)
 
-        if not ansi_settings:
-            # Empty set - usually just a string of semicolons was received
+        if not ansi_settings or start >= len(self._s) or end <= start:
+            # Empty set (usually just a string of semicolons was received) or empty range - nothing to apply
             return
 
         # Apply settings
@@ -401,8 +402,18 @@ class AnsiString:
         start = self._slice_val_to_idx(start, 0)
         end = self._slice_val_to_idx(end, len(self._s))
 
-        if (settings is not None and not settings and not isinstance(settings, int)) or start >= len(self._s) or end <= start:
-            # Ignore - nothing to apply
+        if settings is not None and not settings and not isinstance(settings, int):
+            # Ignore - nothing to remove
+            return
+
+        # (the settings are checked first: a bad setting is always an error and leaves this object untouched)
+        if settings is None:
+            ansi_settings = None
+        else:
+            ansi_settings = _AnsiSettingPoint._scrub_ansi_settings(settings)
+
+        if start >= len(self._s) or end <= start:
+            # Ignore - empty range
             return
 
         if start not in self._fmts:
@@ -410,11 +421,6 @@ class AnsiString:
 
         if end not in self._fmts:
             self._fmts[end] = _AnsiSettingPoint()
-
-        if settings is None:
-            ansi_settings = None
-        else:
-            ansi_settings = _AnsiSettingPoint._scrub_ansi_settings(settings)
 
         removed_settings = []
         for idx, settings_point, current_settings in _AnsiSettingsIterator(self._fmts):
